@@ -208,6 +208,7 @@ def run_case(cls, case_idx, timeout_ms=None):
                  "path": pi, "note": ob.note, "fn": ob.fn}
             if ob.status == "refuted":
                 d["model"] = ob.model
+                d["concrete"] = bool(ob.goal is not True and z3.is_false(ob.goal))
                 d["decisions"] = [int(x) for x in ob.path]
             res["obligations"].append(d)
     res["reached"] = reached
